@@ -69,6 +69,14 @@ var requiredLabels = []string{
 	"int:rb-nothing", "int:rb-close", "int:rb-same-file", "int:rb-isopen", "int:rb-reset", "int:del-done", "int:blocks-done",
 }
 
+// caseTimeout bounds the replay of one behaviour (normally 10-100 ms).
+const caseTimeout = 60 * time.Second
+
+// maxHangs: after this many hung cases no further cases are started.
+const maxHangs = 3
+
+var hangs int64
+
 // distinct abstract transitions exercised on the real code (summed over the
 // configurations; the replays run concurrently).
 var distinctNT int64
@@ -221,7 +229,42 @@ func (r *runner) replayAll(g *graph, paths [][]int32, covered int, work string) 
 			return
 		}
 		id := atomic.AddInt64(&seq, 1)
-		out := r.replayPath(g, paths[i], filepath.Join(work, fmt.Sprintf("%s-%d", name, id)))
+		if atomic.LoadInt64(&hangs) >= maxHangs {
+			return // every hung case keeps a goroutine spinning: stop after a few
+		}
+		// Watchdog: the code under test may loop forever (a cursor that never
+		// ends inside DeleteBucket / PruneBlocks / Commit ...).  A case that
+		// does not return in time is a violation of the property (the
+		// operation never takes effect), not a harness failure.
+		var progress int64
+		done := make(chan outcome, 1)
+		go func() {
+			defer func() {
+				if p := recover(); p != nil {
+					done <- outcome{infra: fmt.Errorf("panic while replaying: %v", p)}
+				}
+			}()
+			done <- r.replayPath(g, paths[i], filepath.Join(work, fmt.Sprintf("%s-%d", name, id)), &progress)
+		}()
+		var out outcome
+		select {
+		case out = <-done:
+		case <-time.After(caseTimeout):
+			atomic.AddInt64(&hangs, 1)
+			at := int(atomic.LoadInt64(&progress))
+			var trace []any
+			for _, ni := range paths[i] {
+				trace = append(trace, g.nodes[ni].Last().Go())
+			}
+			stepName := "?"
+			if at < len(paths[i]) {
+				stepName = stepLabel(g.nodes[paths[i][at]].Last())
+			}
+			ctx.AddTraces(1)
+			ctx.Violation("hang:"+name+":"+stepName, fmt.Sprintf("replaying a behaviour of %s did not return within %s; it hangs in (or right after) step %d (%s)", r.cfg, caseTimeout, at, stepName),
+				map[string]any{"config": r.cfg, "failing_step": at, "steps": trace})
+			return
+		}
 		ctx.AddTraces(1)
 		ctx.AddEval(out.evals)
 		mu.Lock()
